@@ -29,7 +29,7 @@ func prodKeyLox(p *lr1.Prod) string {
 	var rhs []string
 	for _, t := range p.Terms {
 		n := t.TermName()
-		if n == "ERROR" {
+		if _, isTerminal := t.(*lr1.Terminal); isTerminal && n == "ERROR" { // a rule may be called ERROR too
 			n = "@error"
 		}
 		rhs = append(rhs, n)
@@ -53,6 +53,12 @@ func buildMap(ref *lalrref.Table, g *lr1.Grammar) *loxMap {
 			m.termKey[t] = 0
 		default:
 			s, ok := byName[t.Name]
+			if !ok && strings.HasPrefix(t.Name, "PAD") {
+				// gen.Grammar.PadToks: unused tokens the reference never hears of;
+				// an action on one of them would not match any reference key
+				m.termKey[t] = -1000 - t.Index
+				continue
+			}
 			if !ok || s >= ref.C.NT {
 				m.problems = append(m.problems, "terminal "+t.Name+" unknown to the reference")
 				continue
@@ -424,6 +430,20 @@ func c04Families(quick bool) []c04Fam {
 		}
 		return f
 	}
+	// the same spaces with the rules named like the built-in terminals (ERROR, EOF)
+	builtin := func(f c04Fam) c04Fam {
+		get := f.get
+		f.name += "-names-builtin"
+		f.str += ", rules named ERROR, EOF, Ec, .."
+		f.get = func(i int64) *gen.Grammar {
+			g := get(i)
+			if g != nil {
+				g.RenameRules(3)
+			}
+			return g
+		}
+		return f
+	}
 	// the same spaces with every @empty alternative moved into a rule of its own
 	indirect := func(f c04Fam) c04Fam {
 		get := f.get
@@ -438,8 +458,26 @@ func c04Families(quick bool) []c04Fam {
 		}
 		return f
 	}
+	// the same spaces with unused tokens declared before the grammar's own: the
+	// terminals it uses are numbered beyond 64 (and beyond 256)
+	padded := func(f c04Fam, pad int) c04Fam {
+		get := f.get
+		f.name += fmt.Sprintf("-pad%d", pad)
+		f.str += fmt.Sprintf(", %d unused tokens declared first", pad)
+		f.get = func(i int64) *gen.Grammar {
+			g := get(i)
+			if g != nil {
+				g.PadToks = pad
+			}
+			return g
+		}
+		return f
+	}
 	if quick {
 		return []c04Fam{
+			padded(ex("prec", gen.NewExprSpace(2, 1), 6000), 70),
+			padded(sp("plain", gen.NewSpace(2, 2, 2, 2, false), 4000, false), 62),
+			builtin(sp("error", gen.NewSpace(2, 2, 2, 2, true), 30000, false)),
 			indirect(sp("plain", gen.NewSpace(2, 2, 2, 2, false), 0, false)),
 			indirect(sp("plain3", gen.NewSpace(3, 2, 2, 2, false), 200000, false)),
 			named(sp("plain", gen.NewSpace(2, 2, 2, 2, false), 0, false)),
@@ -455,6 +493,11 @@ func c04Families(quick bool) []c04Fam {
 		}
 	}
 	return []c04Fam{
+		padded(ex("prec", gen.NewExprSpace(2, 1), 0), 70),
+		padded(ex("prec", gen.NewExprSpace(2, 1), 20000), 300),
+		padded(sp("plain", gen.NewSpace(2, 2, 2, 2, false), 0, false), 62),
+		builtin(sp("error", gen.NewSpace(2, 2, 2, 2, true), 0, false)),
+		builtin(sp("plain", gen.NewSpace(2, 2, 2, 2, false), 0, false)),
 		indirect(sp("plain", gen.NewSpace(2, 2, 2, 2, false), 0, false)),
 		indirect(sp("plain3", gen.NewSpace(3, 2, 2, 2, false), 2000000, false)),
 		named(sp("plain", gen.NewSpace(2, 2, 2, 2, false), 0, false)),
